@@ -34,35 +34,67 @@ class Bench:
     sv.datastore = conc.DSProxy(self.real_ds)
     sv.default_pythia_service = conc.PythiaProxy(sv.default_pythia_service)
     self.saved = None
+    self.prefix_concrete = []
 
   def save(self):
-    if self.cfg['backend'] == 'ram':
-      self.saved = copy.deepcopy(self.real_ds._owners)  # pylint: disable=protected-access
-    else:
-      raw = self.real_ds._connection.connection.driver_connection  # pylint: disable=protected-access
-      self.saved = sqlite3.connect(':memory:')
-      raw.backup(self.saved)
+    self.saved = None
+    try:
+      if self.cfg['backend'] == 'ram':
+        self.saved = ('ram', copy.deepcopy(self.real_ds._owners))  # pylint: disable=protected-access
+      else:
+        raw = self.real_ds._connection.connection.driver_connection  # pylint: disable=protected-access
+        mem = sqlite3.connect(':memory:')
+        raw.backup(mem)
+        self.saved = ('sql', mem)
+    except AttributeError:
+      # The datastore's internals changed: fall back to rebuilding the prefix
+      # state by re-execution (slower, same semantics).
+      self.saved = None
 
   def restore(self):
     sv = self.sv
-    if self.cfg['backend'] == 'ram':
-      self.real_ds._owners = copy.deepcopy(self.saved)  # pylint: disable=protected-access
+    if self.saved is None:
+      self._rebuild()
+    elif self.saved[0] == 'ram':
+      self.real_ds._owners = copy.deepcopy(self.saved[1])  # pylint: disable=protected-access
     else:
       conn = self.real_ds._connection  # pylint: disable=protected-access
       try:
         conn.rollback()
       except Exception:  # pylint: disable=broad-except
         pass
-      raw = conn.connection.driver_connection
-      self.saved.backup(raw)
-    self.real_ds._lock = conc.SimLock('ds')  # pylint: disable=protected-access
-    sv._owner_name_to_lock = collections.defaultdict(lambda: conc.SimLock('svc.owner'))  # pylint: disable=protected-access
-    sv._study_name_to_lock = collections.defaultdict(lambda: conc.SimLock('svc.study'))  # pylint: disable=protected-access
-    sv._operation_lock = collections.defaultdict(lambda: conc.SimLock('svc.op'))  # pylint: disable=protected-access
+      self.saved[1].backup(conn.connection.driver_connection)
+    # Fresh locks: whatever a previous schedule left held (deadlock, crash) must
+    # not leak into the next one. Found generically: every SimLock attribute and
+    # every table of SimLocks, on the servicer and on the datastore.
+    for obj in (sv, self.real_ds):
+      for name, val in list(vars(obj).items()):
+        if isinstance(val, conc.SimLock):
+          setattr(obj, name, conc.SimLock(val.name))
+        elif isinstance(val, collections.defaultdict) and (
+            isinstance(val.default_factory, type) and issubclass(val.default_factory, conc.SimLock)
+            or any(isinstance(v, conc.SimLock) for v in val.values())
+            or getattr(val.default_factory, '__self__', None).__class__ is conc.ThreadingShim):
+          val.clear()
+
+  def _rebuild(self):
+    """Slow path: new world, prefix re-executed."""
+    self.sv.datastore = self.real_ds
+    self.world.destroy()
+    factory = P.base_factory(self.cfg) if self.cfg.get('algorithm') == 'SEQUENCE' else None
+    with conc.shims_installed():
+      self.world = O.World(self.cfg, backend=self.cfg['backend'], policy_factory=factory)
+    sv = self.world.sv
+    self.sv = sv
+    self.real_ds = sv.datastore
+    sv.datastore = conc.DSProxy(self.real_ds)
+    sv.default_pythia_service = conc.PythiaProxy(sv.default_pythia_service)
+    for c in self.prefix_concrete:
+      O.execute(sv, c, self.cfg)
 
   def destroy(self):
-    if self.saved is not None and self.cfg['backend'] != 'ram':
-      self.saved.close()
+    if self.saved is not None and self.saved[0] == 'sql':
+      self.saved[1].close()
     self.sv.datastore = self.real_ds
     self.world.destroy()
 
@@ -251,6 +283,7 @@ class C04(runner.Check):
       if op[0] in ('Advance', 'ClockFault'):
         continue
       c = O.resolve(op, O.View(sv))
+      bench.prefix_concrete.append(c)
       O.execute(sv, c, cfg)
     clk.tick = 0.0  # frozen for the batch and its serial references
     view = O.View(sv)
@@ -273,6 +306,7 @@ class C04(runner.Check):
     serial = {}
     for order in itertools.permutations(range(len(batch))):
       bench.restore()
+      sv = bench.sv
       outs = [None] * len(batch)
       for i in order:
         outs[i] = O.outcome_norm(batch[i]['kind'], O.execute(sv, batch[i], cfg))
@@ -281,6 +315,7 @@ class C04(runner.Check):
 
     for si, spec in enumerate(plan['scheds']):
       bench.restore()
+      sv = bench.sv
       explicit = spec.get('explicit')
       s = conc.Sched(policy=spec, explicit=explicit)
       for i, c in enumerate(batch):
